@@ -148,11 +148,15 @@ let () =
                               (match count_symbols kn cn mst with
                                | Ok l -> if ints_string l <> counts then diff (Printf.sprintf "op%d count_symbols model %s" n (ints_string l))
                                | _ -> if counts <> "P" then diff (Printf.sprintf "op%d count_symbols model-panics" n));
-                              let mc1 = List.map (fun x -> count_symbol kn cn mst (nat_of_int x)) (List.init k (fun x -> x)) in
-                              if List.for_all (function Ok _ -> true | _ -> false) mc1 then begin
-                                let l = List.map (function Ok v -> v | _ -> O) mc1 in
-                                if ints_string l <> count1 then diff (Printf.sprintf "op%d count_symbol model %s" n (ints_string l))
-                              end else if count1 <> "P" then diff (Printf.sprintf "op%d count_symbol model-panics" n)
+                              (* count_symbol of the model for three symbols (all K are compared
+                                 with the linear sequence above; the unary model is slow) *)
+                              let c1 = Array.of_list (split ',' count1) in
+                              List.iter (fun x ->
+                                  match count_symbol kn cn mst (nat_of_int x) with
+                                  | Ok v -> if Array.length c1 <> k || c1.(x) <> string_of_int (int_of_nat v) then
+                                              diff (Printf.sprintf "op%d count_symbol(%d) model %d" n x (int_of_nat v))
+                                  | _ -> if count1 <> "P" then diff (Printf.sprintf "op%d count_symbol model-panics" n))
+                                (List.sort_uniq compare [0; k - 1; (n + sl) mod k])
                             end
                         | Panic site -> diff (Printf.sprintf "op%d model-panics site %d" n (int_of_nat site))
                         | Err e -> diff (Printf.sprintf "op%d model-err %d" n (int_of_nat e))
